@@ -42,7 +42,17 @@ type verifDMClient struct {
 }
 
 func (c *verifDMClient) rec(m string, pid, id []byte, n int) {
+	verifrt.HarnessLock()
 	c.calls = append(c.calls, verifCall{m, pid, id, n})
+	verifrt.HarnessUnlock()
+}
+
+// getCalls: the calls recorded so far (the code under test may still have
+// goroutines running when the harness looks)
+func (c *verifDMClient) getCalls() []verifCall {
+	verifrt.HarnessLock()
+	defer verifrt.HarnessUnlock()
+	return append([]verifCall(nil), c.calls...)
 }
 
 func (c *verifDMClient) Insert(ctx context.Context, in *pb.InsertRequest, opts ...grpc.CallOption) (*pb.EmptyMessage, error) {
@@ -142,7 +152,9 @@ func (c *verifSearchClient) Search(ctx context.Context, in *pb.SearchRequest, op
 }
 
 func (c *verifSearchClient) SearchPartitions(ctx context.Context, in *pb.SearchPartitionsRequest, opts ...grpc.CallOption) (pb.Search_SearchPartitionsClient, error) {
+	verifrt.HarnessLock()
 	c.requests = append(c.requests, in)
+	verifrt.HarnessUnlock()
 	if c.openFail {
 		return nil, errVerifRemote
 	}
